@@ -299,13 +299,13 @@ def oracle(case, workdir=None):
             elif k in ("average", "avg_w", "avg_err"):
                 ws = [1.0] * nh if k == "average" else (H.nums(o["ws"]) if k == "avg_w" else None)
                 nh_before, nh = nh, 1
-            m = _shape_msg(h, nh, nb)
-            if m:
-                return f"after operation {step} ({k}): {m}"
             if k in ("add_bin", "remove_bin"):
                 got = [float(x) for x in h.bin_edges_]
                 if got != edges:
                     return f"after operation {step} ({json.dumps(o)}): bin edges are {got}, expected {edges}"
+            m = _shape_msg(h, nh, nb)
+            if m:
+                return f"after operation {step} ({k}): {m}"
             if k in ("average", "avg_w") and before.shape == (nh_before, nb) and _finite_rows(before):
                 sw = sum(Fraction(x) for x in ws)
                 got, gerr = np.asarray(h.histogram(), dtype=float)[0], np.asarray(h.standard_error(), dtype=float)[0]
